@@ -715,6 +715,9 @@ package psatoken
 //@   requires iface != nil
 //@   assumes[ok] (ret1 == nil) == jsonTagOK(dynType(iface)) :: the walk reads struct tags only, so its result is a function of the dynamic type; the two built-in results are ground obligations (json-tag-p1/p2), the walk itself is verified with reflect opaque (A-REFLECT-TOTAL)
 //@   assumes[tag] ret1 == nil ==> ret0 == jsonTagOf(dynType(iface)) :: as above
+//@   ensures[by-key] pfByKeyAns(wkT(rtOfIface(iface)), wkV(rtOfIface(iface), rvOfIface(iface)), ret0, ret1)
+//@   ensures[by-name] pfByNameAns(wkT(rtOfIface(iface)), wkV(rtOfIface(iface), rvOfIface(iface)), ret0, ret1)
+//@   ensures[none] pfNoneAns(wkT(rtOfIface(iface)), wkV(rtOfIface(iface), rvOfIface(iface)), ret1)
 //@   modifies nothing
 
 //@ ground[C07,C16,C12] json-tag-p1 : func() bool { t, err := encoding.GetProfileJSONTag(&P1Claims{}); return err == nil && t == "psa-profile" }()
